@@ -1622,6 +1622,14 @@ class Interp:
         return self.call(f, args, kwargs)
 
     def super_call(self, n, env):
+        try:
+            stand_in = env.lookup("__super__")  # contract-provided model of the parent class (the parent lives outside the repository)
+        except KeyError:
+            stand_in = None
+        if stand_in is not None:
+            args = [self.eval(a, env) for a in n.args]
+            kwargs = {kw.arg: self.eval(kw.value, env) for kw in n.keywords}
+            return self.call(self.getattr(stand_in, n.func.attr), args, kwargs)
         cls = env.lookup("__class__")
         fnenv = env
         while fnenv is not None and fnenv.fn is None:
